@@ -119,6 +119,7 @@ CONSTANTS
  BatchOf <- BatchG
  Faults <- FaultsG
  MaxCrash = 0
+ TrackTune = FALSE
 CHECK_DEADLOCK FALSE
 CONSTRAINT HighWater
 POSTCONDITION Accepted
